@@ -196,7 +196,67 @@ def mask_family(pb, b, seed):
     return elim
 
 
+def _rotated_basis_cases():
+    """C01 with general (non-coordinate) subspace_eigenvectors: H_0 is not diagonal in the basis the terms are given in, the eigenvectors mix the basis states, and the perturbation
+    contains terms that are DIAGONAL in the original basis (on-site potentials: they do couple the subspaces).  U^dagger H U is formed from the returned U and independently projected
+    input terms."""
+    global cases
+    Hd = np.array([[1, 1, 1, 1], [1, 1, -1, -1], [1, -1, 1, -1], [1, -1, -1, 1]], dtype=float) / 2
+    Q6 = np.eye(6)
+    Q6[:4, :4] = Hd
+    Q6[4:, 4:] = np.array([[3, 4], [-4, 3]]) / 5
+    for name, Q, E, sizes in (("4 levels, 2 blocks", Hd, [0.0, 1.0, 3.0, 4.5], (2, 2)), ("6 levels, 3 blocks", Q6, [0.0, 1.0, 3.0, 4.5, 7.0, 9.5], (2, 2, 2)),
+                              ("4 levels, blocks 1 + 3", Hd, [0.0, 2.0, 3.0, 4.5], (1, 3))):
+        n = len(E)
+        H0 = Q @ np.diag(E) @ Q.T
+        onsite = np.diag(np.arange(1, n + 1) / 4.0)                       # diagonal in the original basis, not in the eigenbasis
+        rr = np.random.default_rng(5)
+        M = rr.integers(-3, 4, size=(n, n)) / 8
+        generic = (M + M.T) / 2
+        bounds = np.cumsum((0,) + sizes)
+        vecs = [Q[:, bounds[k]:bounds[k + 1]] for k in range(len(sizes))]
+        for pert_name, terms in (("on-site only", [onsite]), ("on-site + generic second order", [onsite, generic]), ("generic + on-site second order", [generic, onsite])):
+            for fmt, conv in (("dense", lambda x: x), ("csr", sparse.csr_array)):
+                for fully in ((), (0,)) if sizes[0] > 1 else ((),):
+                    cases += 1
+                    try:
+                        kw = {"fully_diagonalize": fully} if fully else {}
+                        ham = {(0,): conv(H0)}
+                        ham.update({(k_ + 1,): conv(t) for k_, t in enumerate(terms)})       # one parameter: term k is the order-k coefficient
+                        Ht, U, Ud = block_diagonalize(ham, subspace_eigenvectors=vecs, **kw)
+                        Hn = {0: Q.T @ H0 @ Q}
+                        for k_, t in enumerate(terms):
+                            Hn[k_ + 1] = Q.T @ t @ Q
+
+                        def full(S, o):
+                            out = np.zeros((n, n), dtype=complex)
+                            for i in range(len(sizes)):
+                                for j in range(len(sizes)):
+                                    v = S[(i, j, o)]
+                                    blk = np.zeros((sizes[i], sizes[j])) if v is zero else (np.eye(sizes[i]) if v is one else (v.toarray() if sparse.issparse(v) else np.asarray(v)))
+                                    out[bounds[i]:bounds[i + 1], bounds[j]:bounds[j + 1]] = blk
+                            return out
+                        N = 3
+                        Us, Uds, Hts = [full(U, o) for o in range(N + 1)], [full(Ud, o) for o in range(N + 1)], [full(Ht, o) for o in range(N + 1)]
+                        for o in range(N + 1):
+                            tot = np.zeros((n, n), dtype=complex)
+                            for a_ in range(o + 1):
+                                for b_ in range(o - a_ + 1):
+                                    c_ = o - a_ - b_
+                                    if b_ in Hn:
+                                        tot = tot + Uds[a_] @ Hn[b_] @ Us[c_]
+                            err = np.abs(tot - Hts[o]).max()
+                            off = max((np.abs(tot[bounds[i]:bounds[i + 1], bounds[j]:bounds[j + 1]]).max() for i in range(len(sizes)) for j in range(len(sizes)) if i != j), default=0.0)
+                            if err > 1e-9 or off > 1e-9:
+                                fail("herm", "general eigenvector basis: U^dagger H U (from independently projected input terms) differs from H_tilde or has eliminated elements",
+                                     problem=name, perturbation=pert_name, fmt=fmt, fully=fully, order=o, err=float(err), eliminated=float(off))
+                                break
+                    except Exception as e:  # noqa: BLE001
+                        fail("herm", "general eigenvector basis raised", problem=name, perturbation=pert_name, fmt=fmt, fully=fully, error=repr(e)[:300])
+
+
 def section_herm():
+    _rotated_basis_cases()
     layouts = [
         ([0.0, 1.0, 3.0, 4.5], [0, 0, 1, 1]),
         ([0.0, 0.0, 2.0, 2.0, 5.0], [0, 0, 1, 1, 2]),
@@ -764,6 +824,45 @@ def section_solvers():
                     fail("solvers", "direct_greens_function: (E-H)x != P v or x not in range of P", cplx=cplx, degenerate=degenerate)
             except Exception as e:
                 fail("solvers", "direct solver raised", cplx=cplx, degenerate=degenerate, error=repr(e)[:300])
+    # structured degenerate explicit levels: the rows whose equations are replaced by gauge constraints must give an INVERTIBLE k x k part of the kernel basis, whatever
+    # the basis looks like - partners of very different extent (a bound state on two sites next to an extended state: the rows of largest norm are dependent),
+    # symmetry-adapted vectors with components of equal modulus (the largest component of each vector in turn may select dependent rows), and their gauges
+    n = 8
+    loc = np.zeros(n)
+    loc[:2] = (0.6, 0.8)
+    ext = np.zeros(n)
+    ext[2:] = 1 / np.sqrt(6)
+    sa = np.zeros(n)
+    sa[:4] = 0.5
+    sb = np.zeros(n)
+    sb[:4] = (0.5, 0.5, -0.5, -0.5)
+    c7, s7 = np.cos(0.7), np.sin(0.7)
+    for kname, k0 in (("bound + extended", np.stack([loc, ext], axis=1)), ("equal-modulus (symmetry-adapted)", np.stack([sa, sb], axis=1))):
+        for gname, G in (("as given", np.eye(2)), ("swapped", np.array([[0, 1.0], [1.0, 0]])), ("rotated", np.array([[c7, -s7], [s7, c7]])), ("complex gauge", np.array([[1, 1j], [1j, 1]]) / np.sqrt(2))):
+            cases += 1
+            K = k0 @ G
+            full = np.linalg.qr(np.hstack([k0, np.eye(n)]))[0][:, :n]           # orthonormal completion; the first two columns span the level
+            wlev = np.concatenate(([1.25, 1.25], np.arange(2, n) * 1.5 + 0.25))
+            H = (full * wlev) @ full.T
+            H = H.astype(complex) if np.iscomplexobj(K) else H
+            h = sparse.csr_array(H)
+            try:
+                gf = direct_greens_function(h, 1.25, kernel_vectors=K)
+                vec = (np.arange(1, n + 1) / 4.0).astype(H.dtype)
+                x = gf(vec.copy())
+                Pk = np.eye(n) - K @ K.conj().T
+                r1 = np.abs((1.25 * np.eye(n) - H) @ x - Pk @ vec).max()
+                r2 = np.abs(Pk @ x - x).max()
+                if not (r1 < 1e-7 and r2 < 1e-7):
+                    fail("solvers", "direct_greens_function on a structured degenerate level: (E-H)x != P v or x not in the range of P", kernel=kname, gauge=gname, residual=float(r1), leak=float(r2))
+                ss = solve_sylvester_direct(h, [K])
+                Y = (np.arange(2 * n).reshape(2, n) % 5 - 2).astype(H.dtype) / 4
+                V = np.asarray(ss(Y, (0, 1)))
+                r3 = np.abs(1.25 * V - V @ H - Y @ Pk).max()
+                if not r3 < 1e-7:
+                    fail("solvers", "direct solver on a structured degenerate level: E V - V H != Y P", kernel=kname, gauge=gname, residual=float(r3))
+            except Exception as e:  # noqa: BLE001
+                fail("solvers", "direct solver raised on a structured degenerate level", kernel=kname, gauge=gname, error=repr(e)[:200])
     # non-Hermitian H_0 with biorthogonal explicit bases (R, L): random non-normal H_0, and H_0 whose left eigenvector vanishes on the
     # rows where the right eigenvector is largest (the equations that can be dropped are determined by the LEFT kernel vectors)
     for cplx in (False, True):
@@ -1125,6 +1224,14 @@ def section_illposed():
            lambda: block_diagonalize(sympy.Matrix([[wq * _Dg(aq) * aq, xq * gq], [xq * gq, wq * _Dg(aq) * aq]]), symbols=[xq], subspace_indices=[0, 1])[1][0, 1, 1])
     expect("second-quantized: resonant modes coupled by a hopping term", (ValueError,),
            lambda: block_diagonalize(wq * _Dg(aq) * aq + wq * _Dg(bq) * bq + xq * gq * (_Dg(aq) * bq + _Dg(bq) * aq), symbols=[xq])[0][0, 0, 2])
+    # ... also when the resonance runs through a fermion or spin mode (the denominator omega N_s vanishes only where it is evaluated, N_s = 0)
+    from sympy.physics.quantum.fermion import FermionOp as _Fer
+    from sympy.physics.quantum import pauli as _pauli
+    sq_, cq_, dq_ = _pauli.SigmaMinus("s"), _Fer("c"), _Fer("d")
+    for lab_, H_ in (("boson - spin (resonant Jaynes-Cummings)", wq * _Dg(aq) * aq + wq * _Dg(sq_) * sq_ + xq * gq * (_Dg(aq) * sq_ + _Dg(sq_) * aq)),
+                     ("boson - fermion", wq * _Dg(aq) * aq + wq * _Dg(cq_) * cq_ + xq * gq * (_Dg(aq) * cq_ + _Dg(cq_) * aq)),
+                     ("fermion - fermion", wq * _Dg(cq_) * cq_ + wq * _Dg(dq_) * dq_ + xq * gq * (_Dg(cq_) * dq_ + _Dg(dq_) * cq_))):
+        expect(f"second-quantized: resonance through a binary mode ({lab_})", (ValueError,), lambda H_=H_: block_diagonalize(H_, symbols=[xq])[0][0, 0, 2])
     # symbolic H_0 whose off-diagonal block is known to be non-zero (numbers, positive symbols, operators)
     pq = sympy.Symbol("p_q", positive=True)
     for lab_, c_ in (("a number", 1), ("a positive symbol", pq), ("an operator", aq + _Dg(aq))):
@@ -1294,6 +1401,22 @@ def section_ortho_rtol_finding():
     try:
         got = block_diagonalize([H0, H1], subspace_eigenvectors=[v[:, :2] * (1 + 2e-6), v[:, 2:]])[0][0, 0, 2]
         fail("ortho_rtol_finding", "eigenvectors with norm 1 + 2e-6 are accepted (atol = 1e-12)", error_in_H_tilde_2=float(np.abs(got - ref).max()))
+    except ValueError:
+        pass
+
+
+def section_sqherm_finding():
+    """Witness of known finding F-SQ-HERM (C20): the Hermiticity test of symbolic input is skipped for expressions that contain operators (work-around for a sympy
+    issue), so a non-Hermitian second-quantized Hamiltonian is accepted in Hermitian mode and answered with the result for its Hermitian part."""
+    global cases
+    cases += 1
+    from sympy.physics.quantum import Dagger as _Dg
+    from sympy.physics.quantum.boson import BosonOp as _Bos
+    a_ = _Bos("a")
+    w_, g_ = sympy.symbols("omega g", positive=True)
+    try:
+        got = block_diagonalize(w_ * _Dg(a_) * a_ + g_ * a_, symbols=[g_])[0][0, 0, 2]
+        fail("sqherm_finding", "the non-Hermitian operator-valued Hamiltonian omega a^+ a + g a is accepted in Hermitian mode", H_tilde_2=str(got))
     except ValueError:
         pass
 
